@@ -136,7 +136,10 @@ def check_case(case):
     if True:
         routes.append(("Arc(%r, %r, %r, %r, %d, %d, %r)" % ((sx, sy), rxf, ryf, rot, fa, fs, (ex, ey)),
                        lambda: svg.Arc(svg.Point(sx, sy), rxf, ryf, rot, fa, fs, svg.Point(ex, ey))))
-        routes.append(("Arc(start=.., radius=.. complex form)", None))
+        routes.append(("Arc(%r, complex(%r, %r), %r, %d, %d, %r)" % ((sx, sy), rxf, ryf, rot, fa, fs, (ex, ey)),
+                       lambda: svg.Arc(svg.Point(sx, sy), complex(rxf, ryf), rot, fa, fs, svg.Point(ex, ey))))
+        routes.append(("Arc(start=%r, radius=complex(%r, %r), rotation=%r, arc_flag=%d, sweep_flag=%d, end=%r)" % ((sx, sy), rxf, ryf, rot, fa, fs, (ex, ey)),
+                       lambda: svg.Arc(start=svg.Point(sx, sy), radius=complex(rxf, ryf), rotation=rot, arc_flag=fa, sweep_flag=fs, end=svg.Point(ex, ey))))
     d = "M %r,%r A %r %r %r %d %d %r,%r" % (sx, sy, rxf, ryf, rot, fa, fs, ex, ey)
     routes.append(("Path(%r)[1]" % d, lambda: svg.Path(d)[1]))
     drel = "M %r,%r a %r,%r,%r,%d,%d,%r,%r" % (sx, sy, rxf, ryf, rot, fa, fs, ex - sx, ey - sy)
